@@ -264,4 +264,20 @@ example : specCoinHours 1024819999999 0 0 18000000000000 = .err ovf := by decide
 example : specCoinHours 5000000 7 100 (100 + 7200) = .ok 17 := by decide
 example : specRequiredFee 11 2 = .ok 6 := by decide
 
+/-- the checked addition does not depend on the order of its operands (results AND errors agree) -/
+theorem addU64_comm (a b : Nat) (ha : a < 2^64) (hb : b < 2^64) : AddUint64 a b = AddUint64 b a := by
+  rw [addU64_spec a b ha hb, addU64_spec b a hb ha]; unfold specAddU64; rw [Nat.add_comm]
+
+/-- the checked multiplication does not depend on the order of its operands -/
+theorem mulU64_comm (a b : Nat) (ha : a < 2^64) (hb : b < 2^64) : MultUint64 a b = MultUint64 b a := by
+  rw [mulU64_spec a b ha hb, mulU64_spec b a hb ha]; unfold specMulU64; rw [Nat.mul_comm]
+
+/-- a successful checked addition IS the unbounded sum (never a wrapped value) and fits 64 bits -/
+theorem addU64_exact (a b c : Nat) (ha : a < 2^64) (hb : b < 2^64) (h : AddUint64 a b = .ok c) :
+    c = a + b ∧ c < 2^64 := by
+  rw [addU64_spec a b ha hb] at h; unfold specAddU64 at h
+  split at h
+  · cases h; exact ⟨rfl, by assumption⟩
+  · cases h
+
 end Sky.Props.C31
